@@ -133,7 +133,7 @@ PROPS["C11"] = {
             {"name": "binaryheap_model_validation", "bound": True, "fn": "std BinaryHeap<Reverse<Task>> vs the trusted Verus model", "doc": "peek = min when; pop removes exactly the peeked element"},
         ],
     }],
-    "floor": {"obligations": 22},
+    "floor": {"obligations": 26},
     "trusted_base": [
         "model of std BinaryHeap<T> (multiset + designated top that is a maximum of Ord; peek shows it, pop removes exactly it, push inserts), std Reverse (flips the order), mpsc::Receiver::try_recv (single consumer, no concurrent sender: pops the head or reports empty; modelled with &mut self) -- heap model validated bounded by Kani on the real BinaryHeap",
         "derive(PartialOrd, Ord) on Time(pub u64) compares the field (OrdSpecImpl for Time is assumed)",
@@ -147,10 +147,9 @@ PROPS["C11"] = {
     ],
     "not_covered": [
         "closure retention across the FFI (resolve_closure, close_upvalues_by_idx, WASM closure memory): whether the closure handle still denotes the scheduled closure when it runs",
-        "WasmSchedulerHandle::on_sample / WasmDspRuntime::run_dsp composition (set time, drain, execute each in order) and SimpleScheduler::schedule_at plumbing through the VM FFI",
-        "the panic direction 'a past-time task always panics' (only 'no panic when all received tasks are in the future' is proved)",
+        "WasmDspRuntime::run_dsp / driver.rs ordering (workers before dsp) and the VM FFI behind RuntimeHandle (get_arg_*, resolve_closure, execute_closure)",
     ],
-    "explanation": "C11: Task order is by `when` only (proved); pop_task returns a due task of minimal time and removes exactly it; SchedulerAudioWorker::on_sample and WasmSchedulerHandle::drain_due_tasks execute/return exactly the due multiset in non-decreasing time and keep exactly the rest; the schedule trampoline inserts exactly one task and refuses non-future times; lemma_sample_step lifts the per-sample contract to 'each task runs exactly once, at the sample equal to its time' by induction on the sample index; VM and WASM satisfy the same per-sample contract.",
+    "explanation": "C11: SimpleScheduler::schedule_at sends exactly one task (time = f64 argument truncated, closure = resolved handle); both refusal directions are proved (a received / scheduled task that is not in the future never returns normally: contract variants with `ensures false`); WasmSchedulerHandle::on_sample = set time, drain, execute each due closure once in order; Task order is by `when` only (proved); pop_task returns a due task of minimal time and removes exactly it; SchedulerAudioWorker::on_sample and WasmSchedulerHandle::drain_due_tasks execute/return exactly the due multiset in non-decreasing time and keep exactly the rest; the schedule trampoline inserts exactly one task and refuses non-future times; lemma_sample_step lifts the per-sample contract to 'each task runs exactly once, at the sample equal to its time' by induction on the sample index; VM and WASM satisfy the same per-sample contract.",
     "samples": [
         {"obligation": "SchedulerAudioWorker::on_sample::ensures", "clause": "exists ex: log' == log + closures_of(ex) && sorted_by_when(ex) && count(ex) == due part of (heap + inbox) && heap' == later part"},
         {"obligation": "lemma_sample_step", "clause": "none_overdue(p, now) && sample_step(..) ==> executed == tasks with when == now, none_overdue(next, now+1)"},
